@@ -30,6 +30,7 @@ LEVEL = "exploration"
 RULE = ("Stratified Hypothesis generation: (table) 4..200 strictly increasing unevenly spaced x with finite y and "
         "query points at, between and outside the data; (reader) a list of (x, y) rows rendered into a text file "
         "with generated noise (comment and blank lines, tabs, shuffled rows, extra columns, optional final newline); "
+        "reader x axes also in other units (x 10^-12..10^6) and generated look-up sequences on one reader; "
         "(plot) a function, a range and a step count. Non-trivial = table with uneven spacing and a query strictly "
         "between two data points / reader file with at least two features / plot with lowx != 0; distinct = "
         "canonical JSON.")
